@@ -119,6 +119,9 @@ def gen_cases(tier: str, seed: int):
         d2['timeline'] += [[2.6, 'stop_wait', 'op1'], [3.0, 'start', 'op2']]
         d2['timeline'].sort(key=lambda x: x[0])
         cases.append({'name': nm + '-restart', 'desc': d2})
+    # a delay beyond the framework's 10-minute keep-alive cap of one sleep: the retry still comes no sooner than asked (and does come)
+    cases.append({'name': 'long-delay', 'desc': {'handlers': [{'kind': 'create', 'id': 'c0', 'script': [['temp', 700], ['arb'], ['ok']], 'opts': {'backoff': 650.0}}], 'settings': S,
+                                                  'quiet': 700.0, 'horizon': 4000.0, 'timeline': [[0, 'start', 'op1'], [1, 'create', 'a', {'spec': {'x': 0}}]]}})
     n = 500 if tier == 'quick' else 25000
     for i in range(n):
         cases.append({'name': f'rnd{i}', 'desc': rnd_desc(rng, i)})
